@@ -66,11 +66,14 @@ def cmd_import(out, prop, n):
         k += 1
     dst = os.path.join(SEEDED, f"{prop}-s{k}")
     os.makedirs(dst)
-    for f in os.listdir(src):
-        if f == "README.md":
-            shutil.copy(os.path.join(src, f), os.path.join(dst, "NOTES-from-author.md"))
-        else:
-            shutil.copy(os.path.join(src, f), dst)
+    for root, _, files in os.walk(src):
+        rel = os.path.relpath(root, src)
+        for f in files:
+            if f == "README.md" and rel == ".":
+                shutil.copy(os.path.join(root, f), os.path.join(dst, "NOTES-from-author.md"))
+            else:
+                name = f if rel == "." else rel.replace(os.sep, "_") + "_" + f
+                shutil.copy(os.path.join(root, f), os.path.join(dst, name))
     save_meta(dst, {"id": f"{prop}-s{k}", "property": prop, "origin": "independent sub-agent given only the property text and a scratch worktree"})
     print("imported", dst)
 
